@@ -46,7 +46,7 @@ class Multiline:
       prev = gfapy.FieldArray(self.get_datatype(tagname), [prev])
       self._set_existing_field(tagname, prev)
     if self.vlevel > 1:
-      prev.vpush(value, datatype, tagname)
+      prev._vpush(value, datatype, tagname)
     else:
       prev.append(value)
 
